@@ -46,7 +46,7 @@ struct C11 : Scenario {
         p.setu("sseed", r.u64());
         p.set("splits", "");   // all
         // start-file faults tried in this run
-        std::vector<std::string> kinds = {"missing", "empty", "trunc", "garbage", "nops", "multibunch", "eio", "short", "gridsize", "norecords", "notfloat", "eacces"};
+        std::vector<std::string> kinds = {"missing", "empty", "trunc", "garbage", "nops", "multibunch", "eio", "short", "gridsize", "norecords", "notfloat", "eacces", "multibunch_samecount", "multibunch"};
         std::string f;
         long nf = r.range(2, 4);
         for (long i = 0; i < nf; i++) { if (i) f += ","; f += r.pick(kinds) + ":" + std::to_string(r.range(0, 100000)); }
@@ -220,7 +220,13 @@ struct C11 : Scenario {
         // a good first leg to damage
         unsigned T1 = std::max(1u, x.S / 2);
         Cfg c1 = x.cfg; c1.output = "good.h5"; c1.rotations = (T1 - 0.5) / x.d.steps; c1.saveps = 1; c1.outstep = 2;
-        if (kind == "multibunch") c1.currents = {1e-3, 2e-3};
+        if (kind == "multibunch") { c1.currents = {1e-3, 2e-3}; if (arg % 3 == 0) c1.currents = {1e-3, 0, 2e-3, 1e-3}; }
+        // an earlier leg with k^2 bunches on a grid k times smaller holds exactly as many values as one bunch on this grid
+        if (kind == "multibunch_samecount") {
+            long k = (x.cfg.grid % 3 == 0 && arg % 2) ? 3 : 2;
+            if (x.cfg.grid % k != 0 || x.cfg.grid / k < 8) { kind = "multibunch"; c1.currents = {1e-3, 2e-3}; }
+            else { c1.grid = x.cfg.grid / k; c1.currents.assign((size_t)(k * k), 1e-3); c1.padding = 2; c1.gap = 0; c1.wallcond = 0; c1.collimator = 0; }
+        }
         if (kind == "gridsize") { long g = x.cfg.grid; long opts[4] = {g + 3, std::max(8L, g - 2), std::max(8L, g / 2), g * 2}; c1.grid = opts[arg % 4]; if (c1.grid == g) c1.grid = g + 1; }
         LaunchResult r1; H5Snap good;
         if (!launch_ok(x, c1, "good", r1, good)) { o.set_infra("cannot produce start file for fault " + kind + ": " + r1.describe() + tail(r1.err)); return; }
@@ -238,7 +244,7 @@ struct C11 : Scenario {
         else if (kind == "nops") h5_write_f32(start, "/Other/data", {2, 4, 4}, std::vector<float>(32, 1.f));
         else if (kind == "norecords") h5_write_f32(start, "/PhaseSpace/data", {0, (unsigned long long)x.cfg.grid, (unsigned long long)x.cfg.grid}, {});
         else if (kind == "notfloat") h5_write_f32(start, "/PhaseSpace/data", {(unsigned long long)x.cfg.grid, (unsigned long long)x.cfg.grid}, std::vector<float>((size_t)(x.cfg.grid * x.cfg.grid), 1.f));
-        else if (kind == "multibunch" || kind == "gridsize") write_file(start, src);
+        else if (kind == "multibunch" || kind == "multibunch_samecount" || kind == "gridsize") write_file(start, src);
         else if (kind == "eio") { write_file(start, src); l.rt.fault_path = "start.h5"; l.rt.fault_kind = 2; l.rt.fault_nth = arg % 6; }
         else if (kind == "eacces") { write_file(start, src); l.rt.fault_path = "start.h5"; l.rt.fault_kind = 1; l.rt.fault_nth = -1; l.rt.fault_errno = 13; }   // open() fails: permission denied
         else if (kind == "short") { write_file(start, src); l.rt.fault_path = "start.h5"; l.rt.fault_kind = 3; l.rt.fault_nth = arg % 6; expect_refusal = false; }
